@@ -160,7 +160,7 @@ func emitBody(w *writer, c *c12Case, f int, ind int, lines [][]int, pfx string, 
 		case "defer":
 			l = callStmt(w, ind, true, s.A)
 		case "panic":
-			l = w.ln(ind, fmt.Sprintf("panic(%d)", s.A))
+			l = w.ln(ind, fmt.Sprintf("panic(%d)", gcUnique(pfx, s.A, f, i)))
 		case "recover":
 			if (f+i)%2 == 0 {
 				l = w.ln(ind, fmt.Sprintf("%sR(recover())", pfx0(pfx)))
@@ -185,12 +185,22 @@ func emitBody(w *writer, c *c12Case, f int, ind int, lines [][]int, pfx string, 
 				l = w.ln(ind, fmt.Sprintf("defer %sP(%d)", pfx, s.A))
 			}
 		case "dpanic":
-			l = w.ln(ind, fmt.Sprintf("defer panic(%d)", s.A))
+			l = w.ln(ind, fmt.Sprintf("defer panic(%d)", gcUnique(pfx, s.A, f, i)))
 		default:
 			panic("unknown statement " + s.Op)
 		}
 		lines[f-1][i] = l
 	}
+}
+
+// gcUnique: in the plain-Go rendering every panic statement panics with its own value k + 1000*u (the check
+// reduces values modulo 1000): gc's crash output merges two consecutive panics that have the same value into
+// one line "panic: v [recovered, repanicked]", which would hide the older panic's recovered flag.
+func gcUnique(pfx string, k, f, i int) int {
+	if pfx != "x" {
+		return k
+	}
+	return k + 1000*(f*64+i+1)
 }
 
 // programs use the builtin println for prints (pfx == "") and ext.X for the natives
